@@ -222,6 +222,63 @@ pub struct Yielded {
     pub meta_digest: Option<String>,
 }
 
+fn yielded(f: rpm::RpmFile) -> Yielded {
+    Yielded {
+        path: f.metadata.path.to_string_lossy().to_string(),
+        content_sha: sha256_hex(&f.content),
+        len: f.content.len(),
+        meta_size: f.metadata.size,
+        meta_digest: f.metadata.digest.as_ref().map(|d| d.as_hex().to_string()),
+    }
+}
+
+/// The same files through the other ways of driving an iterator: `nth`, `skip`, `step_by`, `last`, `count`, `size_hint`
+/// between the steps. Returns a description of the first disagreement with `plain` (the result of a `for` loop).
+pub fn iterate_other_ways(p: &rpm::Package, plain: &[Yielded]) -> Result<(), String> {
+    let n = plain.len();
+    let open = || p.files().map_err(|e| format!("files(): {}", e));
+    for k in 0..=n {
+        let got = open()?.nth(k).map(|r| r.map(yielded).map_err(|e| e.to_string()));
+        let want = plain.get(k).cloned();
+        match (got, want) {
+            (Some(Ok(g)), Some(w)) if g == w => {}
+            (None, None) => {}
+            (g, w) => return Err(format!("files().nth({}) gives {:?}, the {}-th file of a plain loop is {:?}", k, g.map(|r| r.map(|y| y.path)), k, w.map(|y| y.path))),
+        }
+        let got: Result<Vec<Yielded>, String> = open()?.skip(k).map(|r| r.map(yielded).map_err(|e| e.to_string())).collect();
+        if got.as_ref().ok().map(|v| &v[..]) != Some(&plain[k.min(n)..]) {
+            return Err(format!("files().skip({}) gives {:?}", k, got.map(|v| v.into_iter().map(|y| y.path).collect::<Vec<_>>())));
+        }
+    }
+    for step in [2usize, 3] {
+        let got: Result<Vec<Yielded>, String> = open()?.step_by(step).map(|r| r.map(yielded).map_err(|e| e.to_string())).collect();
+        let want: Vec<Yielded> = plain.iter().step_by(step).cloned().collect();
+        if got.as_ref().ok() != Some(&want) {
+            return Err(format!("files().step_by({}) gives {:?}", step, got.map(|v| v.into_iter().map(|y| y.path).collect::<Vec<_>>())));
+        }
+    }
+    if open()?.count() != n {
+        return Err(format!("files().count() is not {}", n));
+    }
+    let last = open()?.last().map(|r| r.map(yielded).map_err(|e| e.to_string()));
+    if last.as_ref().map(|r| r.as_ref().ok()) != plain.last().map(Some) {
+        return Err(format!("files().last() gives {:?}", last.map(|r| r.map(|y| y.path))));
+    }
+    // size_hint between the steps must bracket what is still to come
+    let mut it = open()?;
+    for k in 0..=n {
+        let (lo, hi) = it.size_hint();
+        let rest = n - k;
+        if lo > rest || hi.map(|h| h < rest).unwrap_or(false) {
+            return Err(format!("after {} of {} files size_hint() is ({}, {:?})", k, n, lo, hi));
+        }
+        if it.next().is_none() {
+            break;
+        }
+    }
+    Ok(())
+}
+
 pub fn iterate(p: &rpm::Package) -> Result<Vec<Yielded>, String> {
     let mut out = vec![];
     // an iterator that yields more entries than the header lists files (plus a margin) is treated as not terminating
@@ -270,6 +327,13 @@ pub fn judge_built(sub: &str, spec: &BuildSpec, p: &rpm::Package, rank: u64, cas
                 }
                 if g.meta_digest.as_deref() != Some(g.content_sha.as_str()) {
                     bad("digest", format!("{}: digest of the yielded bytes {} but metadata records {:?}", wp, g.content_sha, g.meta_digest));
+                }
+            }
+            if got.len() <= 24 {
+                match catch(|| iterate_other_ways(p, &got)) {
+                    Err(pn) => bad("no-panic", format!("driving files() through nth / skip / step_by / last / count panics at {}", pn.at)),
+                    Ok(Err(e)) => bad("iterator-protocol", e),
+                    Ok(Ok(())) => {}
                 }
             }
         }
